@@ -28,7 +28,7 @@ TEXT = {
         "technique": "metamorphic property-based testing (rapid)",
     },
     "C11": {
-        "level_text": "Metamorphic property-based testing: swapping one adjacent pair of occurrences of different options (any spelling, folded or two-token) must leave acceptance and all bound values unchanged; each run is also compared with the reference semantics.",
+        "level_text": "Metamorphic property-based testing: swapping one adjacent pair of occurrences of different options (any spelling, folded or two-token) must leave acceptance and all bound values unchanged (a disagreement of the common verdict with the reference semantics is C01's claim and only counted).",
         "design_ref": "DESIGN.md section 5 (C11)",
         "level_note": TRUST,
         "technique": "metamorphic property-based testing (rapid)",
@@ -40,7 +40,7 @@ TEXT = {
         "technique": "metamorphic property-based testing over environment configurations (rapid) plus reference-model differential",
     },
     "C08": {
-        "level_text": "Bounded-exhaustive plus random differential testing of the spec compiler against an independent recogniser: all strings up to length 6 (quick) / 7 (thorough) over a 19-symbol character-class alphabet under three declared/undeclared namings, and 10^5-10^6 rapid-generated longer strings (grammar-derived, undeclared names, edits, repository corpus); verdict, token tiling (text, position, type) and error-position range are compared, and the public surface (Run panics with the positioned error before any Action or interceptor) is checked on a sample.",
+        "level_text": "Bounded-exhaustive plus random differential testing of the spec compiler against an independent recogniser: all strings up to length 6 (quick) / 7 (thorough) over a 19-symbol character-class alphabet under one declared/undeclared naming and up to length 5 / 6 under two further namings, and 10^5-10^6 rapid-generated longer strings (grammar-derived, undeclared names, edits, repository corpus); verdict, token tiling (text, position, type) and error-position range are compared, and the public surface (Run panics with the positioned error before any Action or interceptor) is checked on a sample.",
         "design_ref": "DESIGN.md section 5 (C08)",
         "level_note": TRUST + " Exhaustive only up to the stated length per character class; beyond it sampled.",
         "technique": "bounded exhaustive enumeration + property-based differential testing against an independent recogniser (rapid)",
@@ -60,14 +60,14 @@ TEXT = {
     "C04": {
         "level_text": "Model-based property-based testing on generated command trees: the argument vector is split at alias tokens, each level is judged by the reference semantics on its own tokens; the recorded hook log must show exactly the addressed command's Action once (with the Before/After frame) and each level's recorder bindings must be a derivation of that level's own tokens, or else an error and an empty log.",
         "design_ref": "DESIGN.md section 5 (C04)",
-        "level_note": TRUST + " Cases decided by the recorded greedy-group finding (F3) at some level are run and judged with exactly that verdict at that level.",
+        "level_note": TRUST + " Cases decided by the recorded greedy-group finding (F3) at some level are run and must follow either the greedy-group verdict or the ideal one at that level; everything else is demanded unchanged.",
         "technique": "model-based property-based testing over generated command trees (rapid)",
     },
     "C07": {
         "level_text": "Model-based property-based testing over (command tree, error policy, rejection kind): the model names the rejecting level; the check observes the hook log, the captured error stream, Run's return value, the exit stub and the recovered panic, and reads the error stream separately from the output stream (error text and usage are looked for in the error stream only).",
         "design_ref": "DESIGN.md section 5 (C07)",
         "level_note": TRUST + " Conversion failures are produced by recorder value types that fail on a reserved token (same code path as the built-in types, which C13 covers).",
-        "technique": "model-based property-based testing over trees x policies (rapid), cross-policy differential",
+        "technique": "model-based property-based testing over trees x policies (rapid); the error text expected under ExitOnError is taken from the same invocation under ContinueOnError",
     },
     "C14": {
         "level_text": "Model-based property-based testing: a help token at every kind of position (any level, before/after invalid tokens, behind '--') and version requests, under the three policies; observes which command's usage and long description are printed, the hook log, the exit stub and Run's return; on applications whose sub commands declare no parameters also as a second request on the same application object.",
